@@ -39,7 +39,7 @@ end generic
 
 /-- the invariant at root level, from its parts -/
 theorem NetInv.ofRoot {n : Net} {orig L : Cnf} (hs : SInv (orig ++ L) orig n.sat) (hl : ∀ c ∈ L, TEntails n orig c)
-    (hb : ThBase orig n.sat n.lra n.idl n.rdl) (hr : NetReg n) (hroot : n.sat.trailLim = []) : NetInv n orig L [] :=
+    (hb : ThBase (orig ++ L) n.sat n.lra n.idl n.rdl) (hr : NetReg n) (hroot : n.sat.trailLim = []) : NetInv n orig L [] :=
   ⟨hs, hl, hb, trivial, by simp [decisionLevel, hroot], hr⟩
 
 theorem NetInv.root_frames {n : Net} {orig L : Cnf} {fr : List Frame} (h : NetInv n orig L fr) (hroot : n.sat.trailLim = []) :
@@ -63,7 +63,7 @@ theorem NetInv.at_idlNewVar {n : Net} {orig L : Cnf} {fr : List Frame} (h : NetI
   obtain ⟨K, E, hE, hok, hK⟩ := hg
   have hfr := h.root_frames hroot
   subst hfr
-  have hb : ThBase orig n.sat n.lra n.idl n.rdl := h.th
+  have hb : ThBase (orig ++ L) n.sat n.lra n.idl n.rdl := h.th
   obtain ⟨e1, e2, e3, e4⟩ := dlNewVar_same idlOps n.idl
   have hcongr : ∀ α, TModel (idlNewVar n).2 α ↔ TModel n α := fun α =>
     TModel.congr (n := n) (n' := (idlNewVar n).2) (LraSame.refl _) e2 rfl α
@@ -78,7 +78,7 @@ theorem NetInv.at_idlNewVar {n : Net} {orig L : Cnf} {fr : List Frame} (h : NetI
       exact ⟨by omega, by omega, o3, o4⟩
     · show Undo.SortedK (Dl.newVar idlOps n.idl).2.distConstr
       rw [e3]; exact hb.idl.sorted
-  · exact ⟨h.reg.lra, by show ∀ c ∈ (Dl.newVar idlOps n.idl).2.varDists, _; rw [e2]; exact h.reg.idl, h.reg.rdl, h.reg.good, h.reg.aw⟩
+  · exact ⟨h.reg.lra, by show ∀ c ∈ (Dl.newVar idlOps n.idl).2.varDists, _; rw [e2]; exact h.reg.idl, h.reg.rdl, h.reg.good, h.reg.aw, h.reg.sa⟩
 
 theorem NetInv.at_idlNewDistance {n : Net} {orig L : Cnf} {fr : List Frame} (h : NetInv n orig L fr)
     (hroot : n.sat.trailLim = []) (f g : Nat) (w : Int)
@@ -87,7 +87,7 @@ theorem NetInv.at_idlNewDistance {n : Net} {orig L : Cnf} {fr : List Frame} (h :
   obtain ⟨K, E, hE, hok, hf, hgg, hfg, hw1, hw2⟩ := hg
   have hfr := h.root_frames hroot
   subst hfr
-  have hb : ThBase orig n.sat n.lra n.idl n.rdl := h.th
+  have hb : ThBase (orig ++ L) n.sat n.lra n.idl n.rdl := h.th
   have hpi := C10X_newDistance_pathinv K E n.sat n.idl hE hb.idl.path f g w
   -- the resulting network
   have hsat : (idlNewDistance n f g w).2.sat = (Dl.newDistance idlOps n.sat n.idl f g w).2.1 := rfl
@@ -141,7 +141,8 @@ theorem NetInv.at_idlNewDistance {n : Net} {orig L : Cnf} {fr : List Frame} (h :
       · rw [e]; exact hb.idl.sorted
       · rw [e]; exact hb.idl.sorted
   · refine ⟨fun e he => Nat.lt_of_lt_of_le (h.reg.lra e he) hlen, ?_, fun c hc => Nat.lt_of_lt_of_le (h.reg.rdl c hc) hlen,
-      h.reg.good, fun x b hb => Nat.lt_of_lt_of_le (h.reg.aw x b hb) hlen⟩
+      h.reg.good, fun x b hb => Nat.lt_of_lt_of_le (h.reg.aw x b hb) hlen,
+      fun e he => Nat.lt_of_lt_of_le (h.reg.sa e he) hlen⟩
     intro c hc
     show c.b < (Dl.newDistance idlOps n.sat n.idl f g w).2.1.vals.length
     rcases hcases with ⟨e1, e⟩ | ⟨e1, e, _⟩
@@ -165,7 +166,7 @@ theorem NetInv.at_rdlNewVar {n : Net} {orig L : Cnf} {fr : List Frame} (h : NetI
     NetInv (rdlNewVar n).2 orig L [] ∧ ∀ α, TModel (rdlNewVar n).2 α ↔ TModel n α := by
   have hfr := h.root_frames hroot
   subst hfr
-  have hb : ThBase orig n.sat n.lra n.idl n.rdl := h.th
+  have hb : ThBase (orig ++ L) n.sat n.lra n.idl n.rdl := h.th
   obtain ⟨E, hE⟩ := hb.rdl.exact
   obtain ⟨e1, e2, e3, e4⟩ := dlNewVar_same rdlOps n.rdl
   have hcongr : ∀ α, TModel (rdlNewVar n).2 α ↔ TModel n α := fun α =>
@@ -185,7 +186,7 @@ theorem NetInv.at_rdlNewVar {n : Net} {orig L : Cnf} {fr : List Frame} (h : NetI
     · intro c hc
       have hc' : c ∈ n.rdl.varDists := by rw [← e2]; exact hc
       exact hb.rdl.epsC c hc'
-  · exact ⟨h.reg.lra, h.reg.idl, by show ∀ c ∈ (Dl.newVar rdlOps n.rdl).2.varDists, _; rw [e2]; exact h.reg.rdl, h.reg.good, h.reg.aw⟩
+  · exact ⟨h.reg.lra, h.reg.idl, by show ∀ c ∈ (Dl.newVar rdlOps n.rdl).2.varDists, _; rw [e2]; exact h.reg.rdl, h.reg.good, h.reg.aw, h.reg.sa⟩
 
 theorem NetInv.at_rdlNewDistance {n : Net} {orig L : Cnf} {fr : List Frame} (h : NetInv n orig L fr)
     (hroot : n.sat.trailLim = []) (f g : Nat) (w : IR)
@@ -194,7 +195,7 @@ theorem NetInv.at_rdlNewDistance {n : Net} {orig L : Cnf} {fr : List Frame} (h :
   obtain ⟨hf, hgg, hfg, hw1, hw2⟩ := hg
   have hfr := h.root_frames hroot
   subst hfr
-  have hb : ThBase orig n.sat n.lra n.idl n.rdl := h.th
+  have hb : ThBase (orig ++ L) n.sat n.lra n.idl n.rdl := h.th
   obtain ⟨E, hE⟩ := hb.rdl.exact
   have hpi := C10XR_newDistance_pathinv E n.sat n.rdl hE hb.rdl.path f g w
   have hcases := newDistance_cases rdlOps n.sat n.rdl f g w
@@ -255,7 +256,8 @@ theorem NetInv.at_rdlNewDistance {n : Net} {orig L : Cnf} {fr : List Frame} (h :
       · exact hb.rdl.epsC c hc'
       · exact hw2
   · refine ⟨fun e he => Nat.lt_of_lt_of_le (h.reg.lra e he) hlen, fun c hc => Nat.lt_of_lt_of_le (h.reg.idl c hc) hlen, ?_,
-      h.reg.good, fun x b hb => Nat.lt_of_lt_of_le (h.reg.aw x b hb) hlen⟩
+      h.reg.good, fun x b hb => Nat.lt_of_lt_of_le (h.reg.aw x b hb) hlen,
+      fun e he => Nat.lt_of_lt_of_le (h.reg.sa e he) hlen⟩
     intro c hc
     show c.b < (Dl.newDistance rdlOps n.sat n.rdl f g w).2.1.vals.length
     rcases hmem c hc with hc' | ⟨rfl, e1⟩
@@ -289,7 +291,7 @@ theorem NetInv.at_lraNewVar {n : Net} {orig L : Cnf} {fr : List Frame} (h : NetI
     NetInv (lraNewVar n).2 orig L [] ∧ ∀ α, TModel (lraNewVar n).2 α ↔ TModel n α := by
   have hfr := h.root_frames hroot
   subst hfr
-  have hb : ThBase orig n.sat n.lra n.idl n.rdl := h.th
+  have hb : ThBase (orig ++ L) n.sat n.lra n.idl n.rdl := h.th
   have hcongr : ∀ α, TModel (lraNewVar n).2 α ↔ TModel n α := fun α => Iff.rfl
   have hbl := hb.lra.inv.blen
   unfold Lra.BoundsLen at hbl
@@ -334,7 +336,7 @@ theorem NetInv.at_lraNewVar {n : Net} {orig L : Cnf} {fr : List Frame} (h : NetI
         · split
           · exact htrue
           · split <;> exact htrue
-  · refine ⟨h.reg.lra, h.reg.idl, h.reg.rdl, Lra.newVar_good h.reg.good, fun x b hb => ?_⟩
+  · refine ⟨h.reg.lra, h.reg.idl, h.reg.rdl, Lra.newVar_good h.reg.good, fun x b hb => ?_, h.reg.sa⟩
     have hb' : b ∈ (n.lra.aWatches ++ [[]]).getD x [] := hb
     rw [Lra.getD_append_nil] at hb'
     exact h.reg.aw x b hb'
